@@ -21,7 +21,7 @@ read::Dwarf) over BV.tla / Leb.tla.
     decodes the bytes itself and validates every raw and resolved item.
 """
 import json, os
-from vlib import read_ndjson, write_ndjson, canon, ToolError
+from vlib import read_ndjson, write_ndjson, canon, ToolError, log
 
 OVERFLOW = ("MulOverflow", "AddOverflow")
 
@@ -77,10 +77,40 @@ def fam_sig(cf):
     return "%s:%s" % (cf["fam"], ("gnu-v4" if cf["ver"] < 5 else "v5") if coded else "pair-format")
 
 
+def chunks_of(ctx, cases_path, tag, size=60000):
+    """Yield (chunk_path, cases) so that observations of at most `size` cases are in memory."""
+    buf, k = [], 0
+    def flush():
+        nonlocal buf, k
+        p = os.path.join(ctx.work, "%s-part%d.ndjson" % (tag, k))
+        with open(p, "w") as f:
+            f.writelines(buf)
+        cases = [json.loads(l) for l in buf]
+        buf = []
+        k += 1
+        return p, cases
+    with open(cases_path) as f:
+        for line in f:
+            if line.strip():
+                buf.append(line)
+                if len(buf) >= size:
+                    yield flush()
+    if buf:
+        yield flush()
+
+
 def check_list_cases(ctx, binpath, cases_path, tag):
-    obs = ctx.replay(binpath, cases_path, tag=tag)
     n = 0
-    for i, case in enumerate(read_ndjson(cases_path)):
+    for part, cases in chunks_of(ctx, cases_path, tag):
+        obs = ctx.replay(binpath, part, tag=tag)
+        n += check_list_chunk(ctx, cases, obs, n)
+        os.remove(part)
+    return n
+
+
+def check_list_chunk(ctx, cases, obs, base):
+    n = 0
+    for i, case in enumerate(cases):
         n += 1
         o = obs.get(i)
         fs = fam_sig(case["cf"])
@@ -100,7 +130,7 @@ def check_list_cases(ctx, binpath, cases_path, tag):
             ctx.violation("list:%s:%s:%s" % (fs, (o or {}).get("outcome"), (o or {}).get("loc", "")),
                           "list iterators did not return normally: %s" % json.dumps(o)[:300], case, o)
             continue
-        if i % 20011 == 0:
+        if (base + i) % 20011 == 7:
             ctx.sample({"case": case, "obs": {k: o[k] for k in ("raw", "res", "variants")}})
         if not same(case["raw"], o["raw"], ctx, "list:raw"):
             ctx.violation("list:%s:raw" % fs,
@@ -255,8 +285,9 @@ def validate_groups(ctx, trace, module="ListsTrace", chunk_events=30000):
                           (idx - acc, json.dumps(ev)[:500], cf), {"reset": reset, "group": [json.loads(x) for x in groups[gi + k][:idx - acc]][-6:]}, ev)
         rejected += 1
         gi += k + 1
-        if rejected > 50:
-            raise ToolError("too many rejected trace groups")
+        if rejected >= 8:
+            log("[c08] 8 trace groups rejected; the remaining %d groups are not examined" % (len(groups) - gi))
+            break
 
 
 def run(ctx):
